@@ -18,17 +18,11 @@ func readTlvStream(
 	tlvOff := 0
 
 	for {
-		readSize, err := reader.Read(recvBuf[recvOff:])
+		// Read may return n > 0 bytes together with an error (io.Reader: "callers should always
+		// process the n > 0 bytes returned before considering the error"), so the error is
+		// looked at only after the bytes received have been framed.
+		readSize, readErr := reader.Read(recvBuf[recvOff:])
 		recvOff += readSize
-		if err != nil {
-			if ignoreError != nil && ignoreError(err) {
-				continue
-			}
-			if errors.Is(err, io.EOF) {
-				return nil
-			}
-			return err
-		}
 
 		// Determine whether valid packet received
 		for {
@@ -72,6 +66,16 @@ func readTlvStream(
 			copy(recvBuf, recvBuf[tlvOff:recvOff])
 			recvOff -= tlvOff
 			tlvOff = 0
+		}
+
+		if readErr != nil {
+			if ignoreError != nil && ignoreError(readErr) {
+				continue
+			}
+			if errors.Is(readErr, io.EOF) {
+				return nil
+			}
+			return readErr
 		}
 	}
 }
